@@ -169,6 +169,9 @@ class ChannelList(gpp.UGenSequence, aob.AbstractSequence, list):
     def moddif(self, that=0.0, mod=1.0):
         return self._multichannel_perform('moddif', that, mod)
 
+    def sanitize(self):
+        return self._multichannel_perform('sanitize')
+
     # in Array.sc
 
     # channels, no (is len, UGen don't really know about channels), TODO: ensure consistency.
